@@ -12,6 +12,7 @@ Search: sequences with handle copies / use after release (ASan), string/array he
 import collections
 import json
 import os
+import re
 import shutil
 import subprocess
 import sys
@@ -19,6 +20,8 @@ import sys
 import vlib
 
 KF_COPY = "copied-handle-double-release"
+KF_PYDEL = "python-class-instances-never-released"
+KF_PYLIST = "python-list-result-owner-caller-not-freed"
 CAP = os.path.join(vlib.VERIF, "tools", "cgen", "cap")
 
 
@@ -96,6 +99,163 @@ def gen_seq(rng, allow_bad):
                 mops.append("M:%d" % h)
                 lines.append("method %d" % h)
     return mops, lines
+
+
+# ----------------------------------------------------------------- the generated Python extension
+def build_py(ctx):
+    """generate the Python wrappers of the same library (list mode: no numpy) and build the extension with ASan. returns dir or None"""
+    import corpus
+    import sysconfig
+    import yaml
+    d = os.path.join(ctx.bdir, "pycap")
+    shutil.rmtree(d, ignore_errors=True)
+    shutil.copytree(CAP, d)
+    y = yaml.safe_load(open(os.path.join(d, "cap.yaml")))
+    y["options"] = {"wrap_python": True, "wrap_lua": False, "wrap_c": False, "wrap_fortran": False, "PY_array_arg": "list"}
+    yaml.safe_dump(y, open(os.path.join(d, "cap.yaml"), "w"), sort_keys=False)
+    od = os.path.join(d, "pyout")
+    rc, out = corpus.run_shroud(os.path.join(d, "cap.yaml"), od)
+    if rc != 0:
+        ctx.broken.append(("correspondence", "shroud-run-pycap", out[-1200:]))
+        return None
+    inc = sysconfig.get_paths()["include"]
+    rc, out = vlib.sh("g++ -std=c++11 -shared -fPIC -w -g -O0 -fsanitize=address -fno-omit-frame-pointer -I%s -I. -I%s %s/py*.cpp cap.cpp -o cap.so"
+                      % (inc, od, od), cwd=d, timeout=600)
+    if rc != 0:
+        ctx.broken.append(("correspondence", "build-pycap", out[-2500:]))
+        return None
+    return d
+
+
+def gen_pyseq(rng):
+    """(model ops, runner lines): Python references are counted by the harness; the model sees a Release when the LAST reference
+    to an object is dropped (copying a Python reference is safe, unlike copying a C capsule struct)"""
+    mops = ["L"] * 5
+    lines = []
+    refs = []          # per Python slot: root handle index or None
+    nref = {}          # root -> number of live references
+    nh = 0
+    for _ in range(rng.randint(3, 22)):
+        r = rng.random()
+        livei = [i for i, x in enumerate(refs) if x is not None]
+        if r < 0.3 or not refs:
+            k = rng.choice([1, 1, 2, 5])
+            mops.append("N:%d" % k)
+            lines.append("new %d %d" % (k, rng.randint(0, 9)))
+            refs.append(nh)
+            nref[nh] = 1
+            nh += 1
+        elif r < 0.4:
+            a = rng.randint(0, 3)
+            mops.append("B:%d" % a)
+            lines.append("borrow %d" % a)
+            refs.append(nh)
+            nref[nh] = 1
+            nh += 1
+        elif r < 0.55 and livei:
+            i = rng.choice(livei)
+            mops.append("M:%d" % refs[i])
+            lines.append("method %d" % i)
+        elif r < 0.65 and livei:
+            i = rng.choice(livei)
+            lines.append("alias %d" % i)
+            refs.append(refs[i])
+            nref[refs[i]] += 1
+        elif r < 0.85 and livei:
+            i = rng.choice(livei)
+            root = refs[i]
+            refs[i] = None
+            nref[root] -= 1
+            lines.append("drop %d" % i)
+            if nref[root] == 0:
+                mops.append("R:%d" % root)
+        elif r < 0.93:
+            lines.append("call %d %d" % (rng.randint(0, 6), rng.randint(0, 9)))
+        else:
+            lines.append("bad %d %d" % (rng.randint(0, 7), rng.randint(0, 9)))
+    return mops, lines
+
+
+def run_py(d, lines):
+    asan = subprocess.run(["gcc", "-print-file-name=libasan.so"], capture_output=True, text=True).stdout.strip()
+    p = subprocess.run([vlib.PY, os.path.join(d, "pyrun.py"), d], input="\n".join(lines) + "\n", capture_output=True, text=True, timeout=300,
+                       env=dict(os.environ, LD_PRELOAD=asan, ASAN_OPTIONS="detect_leaks=0:abort_on_error=0:halt_on_error=1", PYTHONMALLOC="malloc"))
+    out = p.stdout.splitlines()
+    err = ""
+    for l in p.stderr.splitlines():
+        if "ERROR: AddressSanitizer:" in l:
+            err = l.split("AddressSanitizer:")[1].strip()[:70]
+            break
+    if p.returncode != 0 and not err:
+        err = "exit %d %s" % (p.returncode, (out[-1] if out else p.stderr[-200:]))
+    return out, err
+
+
+def python_runs(ctx, drv):
+    d = build_py(ctx)
+    if d is None:
+        return
+    quick = ctx.tier == "quick"
+    rng = ctx.rng
+    seqs = [gen_pyseq(rng) for _ in range(160 if quick else 2500)]
+    mres = drv.pbatch(["capsule|" + ",".join(m) for m, _ in seqs])
+    from concurrent.futures import ThreadPoolExecutor
+    with ThreadPoolExecutor(vlib.NCPU) as ex:
+        pres = list(ex.map(lambda s: run_py(d, s[1]), seqs))
+    for (mops, lines), m, (out, err) in zip(seqs, mres, pres):
+        ctx.count(1, ("py",) + tuple(lines))
+        ctx.hist("py-history")
+        parts = m.split()
+        mlive = dict(x.split("=") for x in parts[2:])
+        if parts[0] != "Done":
+            ctx.broken.append(("correspondence", "python-history-generator", "model says %s for %s" % (m, lines)))
+            continue
+        if err:
+            ctx.violation("failing-input", {"what": "the generated Python extension fails on a sequence of ordinary Python operations",
+                                            "input": {"python_ops": lines, "asan_or_exit": err, "last_output": out[-2:]}})
+            continue
+        before = [l for l in out if l.startswith("before-drop ")]
+        final = [l for l in out if l.startswith("final ")]
+        want = "before-drop obj_live=%s other_live=%s in_use=%s" % (mlive["live1"], mlive["live2"], mlive["live5"])
+
+        def nums(line):
+            return [int(x) for x in re.findall(r"=(-?\d+)", line)]
+        # known finding: nothing a Python object owns is ever released (every counter at least what the model says, and the final
+        # counters equal to what was ever constructed); an EARLY release (a counter below the model) is never excused
+        if before and final and ctx.is_known(KF_PYDEL):
+            ob, mb, of = nums(before[0]), nums(want), nums(final[0])
+            made = [sum(1 for l in lines if l.startswith("new 1 ")), sum(1 for l in lines if l.startswith("new 2 ")), sum(1 for l in lines if l.startswith("new 5 "))]
+            if all(o >= m_ for o, m_ in zip(ob, mb)) and ob == made and of == made and (ob != mb or any(of)):
+                ctx.known_finding(KF_PYDEL, "")
+                continue
+        if not before or before[0] != want:
+            ctx.violation("failing-input", {"what": "objects alive in the library differ from the reference model while Python still holds references "
+                                                    "(leak or early release in the Python wrapper)",
+                                            "input": {"python_ops": lines, "observed": before[:1], "model": want}})
+        elif not final or final[0] != "final obj_live=0 other_live=0 in_use=0":
+            ctx.violation("failing-input", {"what": "after the last Python reference is gone the library still holds objects (or released too many)",
+                                            "input": {"python_ops": lines, "observed": final[:1]}})
+        for l in out:
+            if " ok no-error" in l:
+                ctx.hist("py-bad-call-accepted")
+    # steady state: bytes kept per call
+    out, err = run_py(d, ["steady %d" % k for k in range(10)])
+    ctx.count(10, ("py-steady",))
+    if err:
+        ctx.violation("failing-input", {"what": "the generated Python extension fails in the steady-state loop", "input": {"asan_or_exit": err}})
+    for l in out:
+        mm = re.match(r"op (\d+) ok ([-\d.]+) ", l)
+        if mm:
+            ctx.hist("py-steady-call")
+            k = int(mm.group(1))
+            if float(mm.group(2)) > 4.0 and k == 0 and ctx.is_known(KF_PYLIST):
+                ctx.known_finding(KF_PYLIST, "")
+            elif float(mm.group(2)) > 4.0 and k in (6, 7, 8) and ctx.is_known(KF_PYDEL):
+                ctx.known_finding(KF_PYDEL, "")
+            elif float(mm.group(2)) > 4.0:
+                ctx.violation("failing-input", {"what": "the Python wrapper keeps %s bytes per call allocated (temporary or result never released)" % mm.group(2),
+                                                "input": {"steady_function_index": int(mm.group(1)), "line": l}})
+    ctx.traces += len(seqs)
 
 
 def run_driver(exe, lines):
@@ -235,6 +395,7 @@ def run(ctx):
                                             "input": {"ops": lines, "driver": final, "model": m}})
     ctx.sample({"ops": seqs[5][1], "model": mres[5], "driver": list(dres[5])})
     ctx.traces += len(seqs)
+    python_runs(ctx, drv)
 
 
 def replay(path):
